@@ -141,7 +141,7 @@ class Machine(base.Machine):
                                 maxdiff=maxdiff(fs, fx), anis=self.spec["model"]["anis"],
                                 angles=self.spec["model"]["angles"])
         exp = self._ref_at(pts, post)
-        if not close(fx, exp):
+        if not close(fx, exp, rtol=self.tol):
             raise Violation("C17.fresh_equal", maxdiff=maxdiff(fx, exp))
 
 
